@@ -52,10 +52,15 @@ def table_case(args):
 def run_pool(fn, jobs, nproc=None):
     nproc = nproc or NPROC
     if len(jobs) < 4 or nproc == 1:
-        return [fn(j) for j in jobs]
-    ctx = mp.get_context("fork")
-    with ctx.Pool(nproc) as pool:
-        return pool.map(fn, jobs, chunksize=max(1, len(jobs) // (nproc * 4)))
+        res = [fn(j) for j in jobs]
+    else:
+        ctx = mp.get_context("fork")
+        with ctx.Pool(nproc) as pool:
+            res = pool.map(fn, jobs, chunksize=max(1, len(jobs) // (nproc * 4)))
+    for r, j in zip(res, jobs):
+        for f in r.get("failures", []):
+            f.setdefault("case", [fn.__module__, fn.__name__, list(j) if isinstance(j, (tuple, list)) else j])      # replayable: same function, same arguments
+    return res
 
 
 def summarize(results, rule, bound):
